@@ -487,7 +487,9 @@ def execute(case):
                     stats['probes']['resolve_compared'] = 1
                 if op.get('expect_keys_of_last_block') and last_block is not None:
                     # only meaningful when the solve after the re-parse succeeded
-                    prev_out = [x for x in multi[si] if x[0] == oi - 1]
+                    # (the op right before this observation may be a seeded logging op: look for the solve itself)
+                    sidx = max([i for i in range(oi) if s['ops'][i]['op'] == 'solve'] or [-1])
+                    prev_out = [x for x in multi[si] if x[0] == sidx]
                     want = set(eqn.block_vars(last_block)) | {'k'}
                     if not eqn.has_user_t(last_block):
                         want.add('t')
